@@ -270,6 +270,12 @@ func init() {
 			l := pickLayer(r, ws)
 			in.Steps = append(in.Steps, kmount("/dev", buildPath(in.Cfg, l.Name)+"/opt", "", 4096+16384, ""))
 		}
+		if r.Chance(1, 6) { // a mounted layer whose layerconfig has been damaged since
+			l := pickLayer(r, ws)
+			in.Steps = append(in.Steps, step("mount", l.Name, "", false))
+			in.Steps = append(in.Steps, lcw.StepIn{Cmd: lcw.Cmd{Kind: "edit", A: in.Cfg.Layers + "/" + l.Name + "/layerconfig",
+				B: "base " + l.Base + "\nbogus keyword\n"}})
+		}
 		var last lcw.StepIn
 		switch r.Intn(5) {
 		case 0:
@@ -303,10 +309,13 @@ func init() {
 				if ws.Layers[i].Base != "" {
 					l := &ws.Layers[i]
 					l.HasBuild, l.Minimal = true, true
-					if r.Bool() {
+					switch r.Intn(3) {
+					case 0:
 						l.HasUpper = false
-					} else {
+					case 1:
 						l.HasWork = false
+					default: // a layer whose layerconfig does not load cleanly (error state)
+						l.RawConfig = "base " + l.Base + "\nimport rbind /dev /dev\nbogus line here\n"
 					}
 					in = lcw.BuildInput(ws)
 					if r.Chance(2, 3) {
